@@ -196,6 +196,14 @@ func (g *closerRules) call(x *Exec, call *ast.CallExpr, lhs []ast.Expr, s St) ([
 	// x.Close() / x.CloseWithError(e)
 	if sel, ok := call.Fun.(*ast.SelectorExpr); ok && (sel.Sel.Name == "Close" || sel.Sel.Name == "CloseWithError") {
 		if id, _ := g.res(x, sel.X, s); id != "" {
+			if s.Get("maynil:"+id) != "" && !x.InDefer {
+				// R12f: a method call on an interface value that can be nil panics
+				// (deferred calls are judged where they are registered)
+				t, _ := b.Term(x, sel.X, s)
+				g.report(x, s.Get("n:"+t) == "nonnil", "nilcall:"+s.Get("name:"+id)+"("+id+")", call.Pos(),
+					s.Get("what:"+id)+" "+s.Get("name:"+id)+" is known to be non-nil when "+sel.Sel.Name+" is called on it",
+					"the callee can return a nil "+s.Get("what:"+id)+" (miss); calling "+sel.Sel.Name+" on it panics the handler")
+			}
 			st := s.Set("r:"+id, "closed")
 			for _, l := range lhs {
 				st = b.AssignValue(x, l, nil, st)
@@ -288,10 +296,16 @@ func (g *closerRules) call(x *Exec, call *ast.CallExpr, lhs []ast.Expr, s St) ([
 			}
 			return []St{g.acquire(x, call, key, spec, lhs, st, true)}, true
 		}
+		mayHold := spec.errMayHold
+		if mayHold {
+			if fi := g.c.P.Func(key); fi != nil && g.errImpliesNil(fi, spec.res, spec.err) {
+				mayHold = false // derived from the callee's own exits
+			}
+		}
 		return b.ForkErr(x, lhs, spec.err, st, func(o St) St {
 			return g.acquire(x, call, key, spec, lhs, o, spec.nonNilOK)
 		}, func(bad St) St {
-			if spec.errMayHold {
+			if mayHold {
 				return g.acquire(x, call, key, spec, lhs, bad, false)
 			}
 			if rt, ok := b.Term(x, lhs[spec.res], bad); ok && spec.field == "" {
@@ -309,6 +323,34 @@ func (g *closerRules) call(x *Exec, call *ast.CallExpr, lhs []ast.Expr, s St) ([
 	return nil, false
 }
 
+var errImpliesNilCache = map[string]bool{}
+
+// errImpliesNil derives, from the callee's own exits, that whenever its error
+// result can be non-nil its closer result is nil.
+func (g *closerRules) errImpliesNil(fi *FuncInfo, res, errIdx int) bool {
+	k := fmt.Sprintf("%p|%s|%d|%d", g.c.P, fi.Key, res, errIdx)
+	if v, ok := errImpliesNilCache[k]; ok {
+		return v
+	}
+	errImpliesNilCache[k] = false
+	ok := true
+	b := NewBase(Hooks{Exit: func(x *Exec, ret *ast.ReturnStmt, s St) {
+		if RetNil(x.Fn, s, errIdx) != "nil" && RetNil(x.Fn, s, res) != "nil" {
+			ok = false
+		}
+	}})
+	x := NewExec(g.c.P.FlowOf(fi), b)
+	x.Run(newSt())
+	if x.Aborted != "" {
+		ok = false
+	}
+	g.c.R.Check(ok, g.rule, g.c.Cfg+fi.Key+":summary:error-implies-nil-result", g.c.P.Pos(fi.Decl.Pos()),
+		fi.Key+" returns a nil closer whenever it returns a non-nil error (derived from its exits), so callers may drop the result on error",
+		"an exit returns a possibly non-nil closer together with a possibly non-nil error: the caller's error path leaks it")
+	errImpliesNilCache[k] = ok
+	return ok
+}
+
 func (g *closerRules) acquire(x *Exec, call *ast.CallExpr, key string, spec acquireSpec, lhs []ast.Expr, o St, nonNil bool) St {
 	rt, ok := g.base.Term(x, lhs[spec.res], o)
 	if !ok {
@@ -324,6 +366,8 @@ func (g *closerRules) acquire(x *Exec, call *ast.CallExpr, key string, spec acqu
 	o = o.Set("rc:"+rt, id).Set("r:"+id, "open").Set("what:"+id, spec.what).Set("name:"+id, name)
 	if nonNil {
 		o = o.Set("n:"+rt, "nonnil")
+	} else {
+		o = o.Set("maynil:"+id, "1")
 	}
 	return o
 }
@@ -375,7 +419,62 @@ func (g *closerRules) moveIntoLit(x *Exec, cl *ast.CompositeLit, s St) St {
 	return s
 }
 
+// inLoop reports whether node n of fn lies inside a for/range statement.
+func inLoop(fn *FlowFn, n ast.Node) bool {
+	found := false
+	ast.Inspect(fn.Body, func(m ast.Node) bool {
+		switch m := m.(type) {
+		case *ast.ForStmt:
+			if m.Body.Pos() <= n.Pos() && n.End() <= m.Body.End() {
+				found = true
+			}
+		case *ast.RangeStmt:
+			if m.Body.Pos() <= n.Pos() && n.End() <= m.Body.End() {
+				found = true
+			}
+		case *ast.FuncLit:
+			return false
+		}
+		return !found
+	})
+	return found
+}
+
 func (g *closerRules) stmt(x *Exec, n ast.Node, s St) ([]St, bool) {
+	// defer r.Close() / defer func() { _ = r.Close() }(): the nil check that
+	// guards the registration is what matters; inside a loop the deferred call
+	// is bound to this iteration's variable, so the resource counts as closed.
+	if d, ok := n.(*ast.DeferStmt); ok {
+		st := s
+		var calls []*ast.CallExpr
+		if lit, ok := d.Call.Fun.(*ast.FuncLit); ok {
+			calls = callsIn(lit.Body, false)
+		} else {
+			calls = []*ast.CallExpr{d.Call}
+		}
+		loop := inLoop(x.Fn, d)
+		for _, c := range calls {
+			sel, ok := c.Fun.(*ast.SelectorExpr)
+			if !ok || (sel.Sel.Name != "Close" && sel.Sel.Name != "CloseWithError") {
+				continue
+			}
+			id, rs := g.res(x, sel.X, st)
+			if id == "" {
+				continue
+			}
+			if st.Get("maynil:"+id) != "" {
+				t, _ := g.base.Term(x, sel.X, st)
+				g.report(x, st.Get("n:"+t) == "nonnil", "nilcall:"+st.Get("name:"+id)+"("+id+")", c.Pos(),
+					st.Get("what:"+id)+" "+st.Get("name:"+id)+" is known to be non-nil when the deferred "+sel.Sel.Name+" is registered",
+					"the callee can return a nil "+st.Get("what:"+id)+" (miss); the deferred "+sel.Sel.Name+" on it panics the handler")
+				st = st.Set("maynil:"+id, "")
+			}
+			if loop && rs == "open" {
+				st = st.Set("r:"+id, "closed")
+			}
+		}
+		return []St{st}, true
+	}
 	if snd, ok := n.(*ast.SendStmt); ok {
 		st := s
 		v := ast.Unparen(snd.Value)
